@@ -21,44 +21,49 @@ Steps(c) == CASE c = "push" -> <<"PUSHNAT">>
               [] c = "drop" -> <<"DROP">>
               [] c = "dropall" -> <<"DROPALL">>
               [] c = "storage" -> <<"STORAGE">>
-Cells == {"push", "newbm", "newbm2", "upd", "begin", "commit", "drop", "dropall", "storage"}
+              [] c = "parambm" -> <<"PARAMBM">>            \* declare  parameter (big_map string nat)
+              [] c = "beginptr" -> <<"BEGINPTR">>          \* BEGIN 5 {} : the parameter is the on-chain big_map 5, which gets registered in the context
+Cells == {"push", "newbm", "newbm2", "upd", "begin", "commit", "drop", "dropall", "storage", "parambm", "beginptr"}
 
-VARIABLES stack, tmp, alloc, commits, hist, fails
-vars == <<stack, tmp, alloc, commits, hist, fails>>
-Init == stack = <<>> /\ tmp = 0 /\ alloc = 0 /\ commits = <<>> /\ hist = <<>> /\ fails = 0
+VARIABLES stack, tmp, alloc, commits, ptype, regs, hist, fails
+vars == <<stack, tmp, alloc, commits, ptype, regs, hist, fails>>
+Init == stack = <<>> /\ tmp = 0 /\ alloc = 0 /\ commits = <<>> /\ ptype = "unit" /\ regs = {} /\ hist = <<>> /\ fails = 0
 
-Stuck == << <<>>, -1, -1, <<>> >>
+Stuck == << <<>>, -1, -1, <<>>, "unit", {} >>
 IsStuck(st) == st[2] = -1
 \* one primitive step on <<stack, tmp, alloc, commits>>;  Stuck when not applicable
 Top(s) == s[1]
 StepOn(st, p) ==
-  LET s == st[1]  t == st[2]  a == st[3]  cm == st[4] IN
-  CASE p = "PUSHNAT" -> <<<< <<"nat">> >> \o s, t, a, cm>>
-    [] p = "PUSHOPT" -> <<<< <<"opt">> >> \o s, t, a, cm>>
-    [] p = "PUSHSTR" -> <<<< <<"str">> >> \o s, t, a, cm>>
-    [] p = "EMPTYBM" -> <<<< <<"bm", -(t + 1)>> >> \o s, t + 1, a, cm>>
-    [] p = "UPDATE" -> IF Len(s) >= 3 /\ s[1] = <<"str">> /\ s[2] = <<"opt">> /\ s[3][1] = "bm" THEN <<SubSeq(s, 3, Len(s)), t, a, cm>> ELSE Stuck
-    [] p = "BEGIN" -> <<<< <<"begun", -(t + 1)>> >>, t + 1, a, cm>>           \* the storage literal {} becomes a temporary big_map
-    [] p = "CDR" -> IF Len(s) >= 1 /\ s[1][1] = "begun" THEN <<<< <<"bm", s[1][2]>> >> \o Tail(s), t, a, cm>> ELSE Stuck
-    [] p = "NILOP" -> <<<< <<"ops">> >> \o s, t, a, cm>>
-    [] p = "PAIR" -> IF Len(s) >= 2 /\ s[1] = <<"ops">> /\ s[2][1] = "bm" THEN <<<< <<"res", s[2][2]>> >> \o SubSeq(s, 3, Len(s)), t, a, cm>> ELSE Stuck
-    [] p = "COMMIT" -> IF Len(s) = 1 /\ s[1][1] = "res" THEN <<<<>>, t, a + 1, Append(cm, a)>> ELSE Stuck   \* a fresh big_map is allocated the next id
-    [] p = "DROP" -> IF Len(s) >= 1 THEN <<Tail(s), t, a, cm>> ELSE Stuck
-    [] p = "DROPALL" -> <<<<>>, t, a, cm>>
+  LET s == st[1]  t == st[2]  a == st[3]  cm == st[4]  pt == st[5]  rg == st[6] IN
+  CASE p = "PUSHNAT" -> <<<< <<"nat">> >> \o s, t, a, cm, pt, rg>>
+    [] p = "PUSHOPT" -> <<<< <<"opt">> >> \o s, t, a, cm, pt, rg>>
+    [] p = "PUSHSTR" -> <<<< <<"str">> >> \o s, t, a, cm, pt, rg>>
+    [] p = "EMPTYBM" -> <<<< <<"bm", -(t + 1)>> >> \o s, t + 1, a, cm, pt, rg>>
+    [] p = "UPDATE" -> IF Len(s) >= 3 /\ s[1] = <<"str">> /\ s[2] = <<"opt">> /\ s[3][1] = "bm" THEN <<SubSeq(s, 3, Len(s)), t, a, cm, pt, rg>> ELSE Stuck
+    [] p = "BEGIN" -> IF pt = "unit" THEN <<<< <<"begun", -(t + 1)>> >>, t + 1, a, cm, pt, rg>> ELSE Stuck           \* the storage literal {} becomes a temporary big_map
+    [] p = "CDR" -> IF Len(s) >= 1 /\ s[1][1] = "begun" THEN <<<< <<"bm", s[1][2]>> >> \o Tail(s), t, a, cm, pt, rg>> ELSE Stuck
+    [] p = "NILOP" -> <<<< <<"ops">> >> \o s, t, a, cm, pt, rg>>
+    [] p = "PAIR" -> IF Len(s) >= 2 /\ s[1] = <<"ops">> /\ s[2][1] = "bm" THEN <<<< <<"res", s[2][2]>> >> \o SubSeq(s, 3, Len(s)), t, a, cm, pt, rg>> ELSE Stuck
+    [] p = "COMMIT" -> IF Len(s) = 1 /\ s[1][1] = "res" THEN <<<<>>, t, a + 1, Append(cm, a), pt, rg>> ELSE Stuck   \* a fresh big_map is allocated the next id
+    [] p = "DROP" -> IF Len(s) >= 1 THEN <<Tail(s), t, a, cm, pt, rg>> ELSE Stuck
+    [] p = "DROPALL" -> <<<<>>, t, a, cm, pt, rg>>
     [] p = "STORAGE" -> st
+    [] p = "PARAMBM" -> <<s, t, a, cm, "bm", rg>>
+    \* the parameter (on-chain big_map 5) is attached as a *copy*: it takes a temporary id, registered as a copy of 5; the storage literal takes the next one
+    [] p = "BEGINPTR" -> IF pt = "bm" THEN <<<< <<"begun", -(t + 2)>> >>, t + 2, a, cm, pt, rg \cup {<<-(t + 1), 5>>}>> ELSE Stuck
 RECURSIVE RunSteps(_, _)
 RunSteps(st, ps) == IF ps = <<>> \/ IsStuck(st) THEN st ELSE LET r == StepOn(st, Head(ps)) IN RunSteps(r, Tail(ps))
 
-Cur == <<stack, tmp, alloc, commits>>
+Cur == <<stack, tmp, alloc, commits, ptype, regs>>
 \* fp = number of steps executed before the spliced FAIL; fp = -1: the cell has no FAIL
 Cell(c, fp) ==
   /\ Len(hist) < MaxCells
   /\ LET full == RunSteps(Cur, Steps(c)) IN
        /\ ~IsStuck(full) /\ Len(full[1]) <= MaxStack            \* only cells that would succeed are in the alphabet
        /\ IF fp = -1
-          THEN /\ stack' = full[1] /\ tmp' = full[2] /\ alloc' = full[3] /\ commits' = full[4] /\ fails' = fails
+          THEN /\ stack' = full[1] /\ tmp' = full[2] /\ alloc' = full[3] /\ commits' = full[4] /\ ptype' = full[5] /\ regs' = full[6] /\ fails' = fails
           ELSE /\ fails < MaxFails /\ fails' = fails + 1
-               /\ UNCHANGED <<stack, tmp, alloc, commits>>          \* C22: a failing cell leaves the session as if it never ran
+               /\ UNCHANGED <<stack, tmp, alloc, commits, ptype, regs>>          \* C22: a failing cell leaves the session as if it never ran
   /\ hist' = Append(hist, <<c, fp>>)
 Ok(c) == Cell(c, -1)
 Failing(c, fp) == Cell(c, fp)
@@ -69,8 +74,8 @@ Survivors(h) == SelectSeq(h, LAMBDA e : e[2] = -1)
 RECURSIVE Replay(_, _)
 Replay(st, h) == IF h = <<>> THEN st ELSE LET r == RunSteps(st, Steps(Head(h)[1])) IN Replay(r, Tail(h))
 \* the session equals the session with the failing cells removed
-AsIfNeverRan == Cur = Replay(<<<<>>, 0, 0, <<>>>>, Survivors(hist))
-Rollback == [][ hist'[Len(hist')][2] # -1 => UNCHANGED <<stack, tmp, alloc, commits>> ]_vars
+AsIfNeverRan == Cur = Replay(<<<<>>, 0, 0, <<>>, "unit", {}>>, Survivors(hist))
+Rollback == [][ hist'[Len(hist')][2] # -1 => UNCHANGED <<stack, tmp, alloc, commits, ptype, regs>> ]_vars
 CountersMonotone == [][ tmp' >= tmp /\ alloc' >= alloc ]_vars
 CommitIdsDistinct == \A i, j \in DOMAIN commits : i # j => commits[i] # commits[j]
 =============================================================================
